@@ -17,6 +17,10 @@ from pathlib import Path
 
 HERE = Path(__file__).resolve().parent
 sys.path.insert(0, str(HERE))
+if os.environ.get("PYTHONHASHSEED") != "0" and __name__ == "__main__":
+    # string hashing must not vary from run to run: generators and oracles iterate over sets in a few places
+    os.environ["PYTHONHASHSEED"] = "0"
+    os.execv(sys.executable, [sys.executable, *sys.argv])
 os.environ.setdefault("PYTHONHASHSEED", "0")
 
 import common  # noqa: E402
